@@ -304,6 +304,37 @@ Definition init0 (recs : list rec) : st :=
 Definition in_window (single : bool) (s : st) : bool :=
   negb single && match pc s with PCopy _ | PBumpPl _ => true | _ => false end.
 
+(* ------------------------------------------------------------------ the faithful machine for a closed pipe *)
+(* In the LTS above a thread that lost its connection to the recorder is abstracted to `PDark`.  Here it is not:
+   with the pipe closed every store of the thread still happens (into buffers the recorder never hears of), only
+   the messages are dropped.  ProofsDark.v shows that both machines leave the same data file. *)
+(* the producer's real step while the pipe is closed: every store happens, nothing is sent *)
+Definition pstep_mute (single : bool) (cap : nat) (s : st) : st := with_chan (chan s) (pstep single cap s).
+
+(* the faithful machine: the closing of the pipe is part of the state *)
+Inductive flab := FP | FR | FW | FC | FD.
+Definition fstep (single : bool) (cap : nat) (l : flab) (x : st * bool) : st * bool :=
+  let '(s, closed) := x in
+  match l with
+  | FP => (if closed then pstep_mute single cap s else pstep single cap s, closed)
+  | FR => (rstep s, closed)
+  | FW => (wstep s, closed)
+  | FC => (s, true)
+  | FD => (dstep closed s, closed)
+  end.
+Definition frun single cap (sched : list flab) (x : st * bool) := fold_left (fun x l => fstep single cap l x) sched x.
+(* the same schedule for the abstract machine of the theorems *)
+Definition alab (closed : bool) (l : flab) : list lab :=
+  match l with
+  | FP => [if closed then LPC else LP] | FR => [LR] | FW => [LW] | FC => [] | FD => [if closed then LDC else LD]
+  end.
+Fixpoint asched (closed : bool) (sched : list flab) : list lab :=
+  match sched with
+  | [] => []
+  | l :: r => alab closed l ++ asched (match l with FC => true | _ => closed end) r
+  end.
+
+
 (* ------------------------------------------------------------------ several threads, one recorder *)
 (* Every thread has its own ring of buffers, its own data file and its own program; all of them write to
    the one message pipe, and the recorder keeps ONE shmem_list and ONE buf_write_list for all of them
@@ -716,6 +747,44 @@ Fixpoint tie_ops (single : bool) (cap : nat) (i close_at : nat) (groups : list (
                         (run single cap (p_until_done single closed cap (fuel_for (length g)) n s1) s1)
       end
   end.
+(* the same with the faithful machine: after the pipe was closed the producer's stores are all made (and
+   counted as visible events, as the driver sees them in shared memory) *)
+Definition fpstep (closed single : bool) (cap : nat) (s : st) : st :=
+  if closed then pstep_mute single cap s else pstep single cap s.
+Fixpoint pf_until_done (single closed : bool) (cap fuel n : nat) (s : st) : st :=
+  match fuel with
+  | O => s
+  | S k => match pc s with
+           | PDark => s
+           | PIdle => if n <=? length (done s) then s else pf_until_done single closed cap k n (fpstep closed single cap s)
+           | _ => pf_until_done single closed cap k n (fpstep closed single cap s)
+           end
+  end.
+Fixpoint pf_until_events (single closed : bool) (cap fuel e n : nat) (s : st) : st :=
+  match fuel, e with
+  | O, _ => s
+  | _, O => s
+  | S k, S e' =>
+      match pc s with
+      | PDark => s
+      | PIdle => if n <=? length (done s) then s else pf_until_events single closed cap k e n (fpstep closed single cap s)
+      | _ => pf_until_events single closed cap k (if visible single s then e' else e) n (fpstep closed single cap s)
+      end
+  end.
+Fixpoint tie_ops_f (single : bool) (cap : nat) (i close_at : nat) (groups : list (list rec)) (syncs : list bool)
+         (kill : option nat) (s : st) : st :=
+  match groups with
+  | [] => s
+  | g :: rest =>
+      let closed := close_at <=? i in
+      let s1 := if hd false syncs then run single cap (catch_up s) s else s in
+      let n := length (done s1) + length g in
+      match rest, kill with
+      | [], Some e => pf_until_events single closed cap (fuel_for (length g)) e n s1
+      | _, _ => tie_ops_f single cap (S i) close_at rest (List.tl syncs) kill
+                          (pf_until_done single closed cap (fuel_for (length g)) n s1)
+      end
+  end.
 Definition tc_groups (tc : tcase) : list (list rec) :=
   let '(stk, rss) := ops_run [] (tc_ops tc) in
   if tc_flush tc then rss ++ [segv_flush stk] else rss.
@@ -734,7 +803,14 @@ Fixpoint nat_list_eqb (a b : list nat) : bool :=
   | x :: a', y :: b' => Nat.eqb x y && nat_list_eqb a' b'
   | _, _ => false
   end.
+Definition tc_state_f (tc : tcase) : st :=
+  let s := tie_ops_f (tc_single tc) (tc_cap tc) 0 (tc_close tc) (tc_groups tc) (tc_sync tc) (tc_kill tc)
+                     (init0 (concat (tc_groups tc))) in
+  if (tc_end tc =? 1)%N then dstep true s else if (tc_end tc =? 2)%N then dstep false s else s.
 (* model = implementation on this case *)
+Definition agrees_f (tc : tcase) : bool :=
+  let '(a, f, b, c) := obs (tc_state_f tc) in
+  nat_list_eqb a (tc_shl tc) && list_eqb f (tc_shf tc) && nat_list_eqb b (tc_wl tc) && list_eqb c (tc_file tc).
 Definition agrees (tc : tcase) : bool :=
   let '(a, f, b, c) := obs (tc_state tc) in
   nat_list_eqb a (tc_shl tc) && list_eqb f (tc_shf tc) && nat_list_eqb b (tc_wl tc) && list_eqb c (tc_file tc).
